@@ -838,7 +838,7 @@ fn oracle_c14(out: &mut RunOut, model: &Model, raw: &Raw) {
             if *tp != want_tp {
                 out.violate("third-party-misclassified", format!("{:?}: is_third_party={} but its source lives {}", k, tp, if want_tp { "in site-packages / outside the workspace" } else { "inside the workspace" }));
             }
-            if want_plugin_ws && !(*pl && !*tp) {
+            if want_plugin_ws && !md.via_explicit_only && !(*pl && !*tp) {
                 out.violate("workspace-plugin-misclassified", format!("{:?}: is_plugin={} is_third_party={}", k, pl, tp));
             }
         }
